@@ -4826,7 +4826,9 @@ class HaloReadAccess(HaloDepth):
                 pass
             else:  # there is no stencil
                 if (field.discontinuous or call.iterates_over == "dof" or
-                        call.all_updates_are_writes):
+                        (call.all_updates_are_writes and
+                         loop.field_space.orig_name not in
+                         const.VALID_DISCONTINUOUS_NAMES)):
                     # There are only local accesses or the kernel is of the
                     # special form where any iteration is guaranteed to write
                     # the same value to a given shared entity.
